@@ -67,7 +67,7 @@ pub fn make_base(ps: u64, commits: usize, seed: u64, scratch: &Scratch) -> Resul
     g.ops_per_tx = (6, 20);
     g.max_value = ps as usize;
     let mut h = if commits == 0 {
-        History { pagesize: ps, num_pages: 8, strict: false, populate: false, txs: vec![], origin: "fresh".into() }
+        History { pagesize: ps, num_pages: 8, strict: false, populate: false, txs: vec![], origin: "fresh".into(), pins: vec![] }
     } else {
         gen::gen_history(&mut rng, &g)
     };
@@ -155,7 +155,7 @@ fn probe_newest_slot(image: &[u8], h: &History, commits: usize, s_prev: &MBucket
 pub fn foreign_base(start: &[u8], start_state: &MBucket, ps: u64, extra: usize, scratch: &Scratch) -> Result<Base, String> {
     let path = scratch.fresh("foreign");
     std::fs::write(&path, start).map_err(|e| e.to_string())?;
-    let h = History { pagesize: ps, num_pages: 8, strict: false, populate: false, txs: vec![], origin: "foreign".into() };
+    let h = History { pagesize: ps, num_pages: 8, strict: false, populate: false, txs: vec![], origin: "foreign".into(), pins: vec![] };
     let cfg = ExecCfg::default();
     let mut run = exec::Run::new(&cfg, ps);
     let mut model = start_state.clone();
@@ -491,14 +491,14 @@ pub fn run(ctx: &Ctx) -> Shard {
     for np in 4..=16usize {
         for commits in 1..=3u64 {
             let txs: Vec<TxScript> = (0..commits).map(|i| TxScript { ops: vec![Op::TxGetOrCreate { k: K::lit(b"marker"), how: How::Slice }, put(i)], end: End::Commit, reopen: false }).collect();
-            small.push((format!("{} initial pages, {} commits", np, commits), History { pagesize: 1024, num_pages: np, strict: false, populate: false, txs, origin: "small".into() }));
+            small.push((format!("{} initial pages, {} commits", np, commits), History { pagesize: 1024, num_pages: np, strict: false, populate: false, txs, origin: "small".into(), pins: vec![] }));
         }
     }
     for (what, last_ops) in [("empty", vec![]), ("reads only", vec![Op::TxBuckets, Op::TxGet { k: K::lit(b"marker"), how: How::Slice }, Op::Get { h: 0, k: K::lit(b"commit") }]), ("get_or_create of an existing bucket", vec![Op::TxGetOrCreate { k: K::lit(b"marker"), how: How::Slice }])] {
         for commits in 1..=3u64 {
             let mut txs: Vec<TxScript> = (0..commits).map(|i| TxScript { ops: vec![Op::TxGetOrCreate { k: K::lit(b"marker"), how: How::Slice }, put(i)], end: End::Commit, reopen: false }).collect();
             txs.push(TxScript { ops: last_ops.clone(), end: End::Commit, reopen: false });
-            small.push((format!("{} commits then a write transaction that changes nothing ({})", commits, what), History { pagesize: 1024, num_pages: 8, strict: false, populate: false, txs, origin: "noop-last".into() }));
+            small.push((format!("{} commits then a write transaction that changes nothing ({})", commits, what), History { pagesize: 1024, num_pages: 8, strict: false, populate: false, txs, origin: "noop-last".into(), pins: vec![] }));
         }
     }
     // a free list of several pages (a 200-page bucket deleted) followed by small commits: falling back to the
@@ -558,7 +558,7 @@ pub fn run(ctx: &Ctx) -> Shard {
     let mut specs: Vec<(String, ForeignSpec)> = Vec::new();
     let marker_history = |np: usize, commits: u64| {
         let txs: Vec<TxScript> = (0..commits).map(|i| TxScript { ops: vec![Op::TxGetOrCreate { k: K::lit(b"marker"), how: How::Slice }, put(i)], end: End::Commit, reopen: false }).collect();
-        History { pagesize: 1024, num_pages: np, strict: false, populate: false, txs, origin: "small".into() }
+        History { pagesize: 1024, num_pages: np, strict: false, populate: false, txs, origin: "small".into(), pins: vec![] }
     };
     for commits in 1..=4u64 {
         specs.push((format!("both headers in the legacy format, {} commits", commits), ForeignSpec { golden: String::new(), history: Some(marker_history(8, commits)), legacy: true, extra: 0 }));
